@@ -48,9 +48,16 @@ type summary struct {
 	Complete bool             `json:"complete"`
 }
 
+type pairFailure struct {
+	P      *seqPair `json:"p"`
+	Kind   string   `json:"kind"`
+	Detail string   `json:"detail"`
+}
+
 type line struct {
-	F *failure `json:"f,omitempty"`
-	S *summary `json:"s,omitempty"`
+	F *failure     `json:"f,omitempty"`
+	P *pairFailure `json:"p,omitempty"`
+	S *summary     `json:"s,omitempty"`
 }
 
 func cacheCounters(w *worker) (hits, misses int64) {
@@ -77,14 +84,10 @@ func (w *worker) judgeCounted(q *query, c map[string]int64) *verdict {
 		c["cache_not_consulted"]++ // rejected before the transform, no FROM/JOIN, or the uncached header fast path
 	case h1-h0 > 0:
 		c["cache_cold_state_not_reached"]++
-		v.StaleHit = true
 	default:
 		c["cache_warm_state_not_reached"]++
 	}
 	v.finish(q.Ordered)
-	if v.StaleHit && v.Kind != "" {
-		v.Kind = crossPrefix + v.Kind
-	}
 	return v
 }
 
@@ -127,8 +130,7 @@ func childMain(run *ev.Run, spec, store, root string) {
 	fmt.Sscanf(spec, "%d/%d/%d", &k, &n, &deadline)
 	w := newWorker(store, filepath.Join(root, fmt.Sprintf("w%02d", k)))
 	var mine []*query
-	// sharded by the SQL text, so that the header-less and the header variant of one text run back to back on
-	// the same handler (a transform-cache entry of one must never serve the other)
+	// sharded by the SQL text
 	enumerate(run.Quick(), func(q *query) {
 		h := fnv.New32a()
 		h.Write([]byte(q.SQL()))
@@ -146,16 +148,59 @@ func childMain(run *ev.Run, spec, store, root string) {
 	if len(mine) > 0 && run.Seed != 0 {
 		start = ((run.Seed % len(mine)) + len(mine)) % len(mine) // VERIF_SEED only permutes the order
 	}
+	// the sequence dimension first (it is the smaller part): ordered pairs, sharded by index
+	var myPairs []*seqPair
+	pi := -1
+	enumeratePairs(run.Quick(), func(p *seqPair) {
+		pi++
+		if pi%n == k {
+			myPairs = append(myPairs, p)
+		}
+	})
+	oracleMemo := map[string]*answer{}
+	ask := func(q *query) *answer {
+		key := q.Hdr + "\x00" + q.SQL()
+		a, ok := oracleMemo[key]
+		if !ok {
+			a = w.askOracle(q.SQL(), q.Hdr)
+			oracleMemo[key] = a
+		}
+		return a
+	}
+	for j, p := range myPairs {
+		if j%16 == 0 && time.Now().Unix() >= deadline {
+			complete = false
+			break
+		}
+		oA, oB := ask(p.A), ask(p.B)
+		kind, detail, served := w.judgePair(p.A, p.B, oB)
+		c["pairs"]++
+		c["pairdev:"+p.LabB]++
+		if oA.OK != oB.OK || answerHash(oA) != answerHash(oB) {
+			c["pairs_answers_differ"]++
+		}
+		if served {
+			c["pairs_b_served_from_cache"]++
+		}
+		switch {
+		case kind == "":
+		case strings.HasPrefix(kind, "?single:"):
+			c["pairs_single_statement_defect"]++
+		default:
+			c["pairs_failing"]++
+			enc.Encode(line{P: &pairFailure{P: p, Kind: kind, Detail: detail}})
+		}
+	}
+	w.handler.InvalidateCaches()
 	for j := range mine {
 		if j%64 == 0 && time.Now().Unix() >= deadline {
 			complete = false
 			break
 		}
-		if j > 0 && j%500 == 0 {
-			// the cache stops admitting entries once one of its 16 shards holds 625 (its FNV shard choice is
-			// skewed for similar texts): empty it through the handler's own API so that "warm" stays reachable
-			w.handler.InvalidateCaches()
-		}
+		// every single-statement case starts from empty caches (the handler's own InvalidateCaches), so that its
+		// first execution is cold whatever ran before; what one statement's cache entry does to ANOTHER statement
+		// is the business of the sequence dimension above
+		w.handler.InvalidateCaches()
 		q := mine[(start+j)%len(mine)]
 		wnr := c["cache_warm_state_not_reached"]
 		v := w.judgeCounted(q, c)
@@ -207,13 +252,12 @@ type minimizer struct {
 	w    *worker
 	memo map[string]string
 	runs int
-	pair bool // judge every candidate after the same text was requested under the other header value
 }
 
 // kindOf judges a candidate from a cold cache. When the oracle's outcome alone already rules out the wanted
 // kind (DuckDB rejects the candidate but the kind needs its answer, or the reverse) Arc is not executed.
 func (m *minimizer) kindOf(q *query, ordered bool, want string) string {
-	key := q.Hdr + "\x00" + strconv.FormatBool(ordered) + strconv.FormatBool(m.pair) + "\x00" + q.SQL()
+	key := q.Hdr + "\x00" + strconv.FormatBool(ordered) + "\x00" + q.SQL()
 	if k, ok := m.memo[key]; ok {
 		return k
 	}
@@ -238,13 +282,7 @@ func (m *minimizer) kindOf(q *query, ordered bool, want string) string {
 	m.runs++
 	m.w.handler.InvalidateCaches() // first execution must be cold
 	var k string
-	if m.pair {
-		// the class depends on what the same text under the other header value left in the cache
-		m.w.askArc(sqlText, otherHeader(q.Hdr))
-		qq := *q
-		qq.Ordered = ordered
-		k = m.w.judgeCounted(&qq, map[string]int64{}).Kind
-	} else if want != "" && !strings.Contains(want, "warm") && !strings.Contains(want, "cold") {
+	if want != "" && !strings.Contains(want, "warm") && !strings.Contains(want, "cold") {
 		// candidates of a class that does not depend on the cache state are judged on the cold execution
 		// only; the final minimal form is judged in full (twice) before it is reported
 		k, _ = compare(m.w.askOracle(sqlText, q.Hdr), m.w.askArc(sqlText, q.Hdr), ordered)
@@ -616,8 +654,14 @@ func main() {
 		famTotal[q.Fam]++
 		tmplSeen[q.Tmpl] = true
 	})
+	totalPairs := 0
+	pairFamilies := map[string]int{}
+	enumeratePairs(run.Quick(), func(p *seqPair) {
+		totalPairs++
+		pairFamilies[p.Base+"|header="+p.Hdr]++
+	})
 	if os.Getenv("VERIF_C16_COUNT") != "" {
-		fmt.Println("cases:", total, famTotal)
+		fmt.Println("cases:", total, famTotal, "ordered pairs:", totalPairs, pairFamilies)
 		w0.close()
 		cleanup()
 		return
@@ -636,6 +680,7 @@ func main() {
 	self, err := os.Executable()
 	must(err, "os.Executable")
 	var fails []*failure
+	var pairFails []*pairFailure
 	var failMu sync.Mutex
 	sums := make([]*summary, nProcs)
 	var wg sync.WaitGroup
@@ -663,13 +708,18 @@ func main() {
 			sc.Buffer(make([]byte, 1<<20), 1<<26)
 			for sc.Scan() {
 				var l line
-				if json.Unmarshal(sc.Bytes(), &l) != nil || (l.F == nil && l.S == nil) {
+				if json.Unmarshal(sc.Bytes(), &l) != nil || (l.F == nil && l.S == nil && l.P == nil) {
 					childErr.CompareAndSwap(nil, "worker process said: "+trunc(sc.Text(), 400))
 					continue
 				}
 				if l.F != nil {
 					failMu.Lock()
 					fails = append(fails, l.F)
+					failMu.Unlock()
+				}
+				if l.P != nil {
+					failMu.Lock()
+					pairFails = append(pairFails, l.P)
 					failMu.Unlock()
 				}
 				if l.S != nil {
@@ -746,6 +796,16 @@ func main() {
 	if n, err := strconv.Atoi(os.Getenv("VERIF_C16_MINIMIZERS")); err == nil && n > 0 {
 		poolSize = n
 	}
+	// hints: minimal forms recorded from earlier runs (hints.json next to this file). A hint is only a CANDIDATE:
+	// it becomes the class of a failure when the failure contains it (subsumption), the kinds are equal and
+	// the hint itself, judged now on this tree from a cold cache, fails with exactly that kind. This replaces
+	// hundreds of minimisation runs per known class by one verification; anything no hint explains is
+	// minimised as before.
+	var hints []*failure
+	if b, err := os.ReadFile(filepath.Join(ev.Root, "harness/checks/c16/hints.json")); err == nil && os.Getenv("VERIF_C16_NOHINTS") == "" {
+		must(json.Unmarshal(b, &hints), "hints.json")
+	}
+	hintState := map[int]int{} // 0 unknown, 1 verified, 2 does not fail (any more)
 	pool := []*minimizer{{w: w0, memo: map[string]string{}}}
 	var classes []*class
 	bySig := map[string]*class{}
@@ -768,7 +828,45 @@ func main() {
 	for _, f := range fails {
 		kindHist[f.Kind]++
 	}
-	minRuns, rounds := 0, 0
+	minRuns, rounds, hinted := 0, 0, 0
+	tryHints := func(f *failure) bool {
+		for hi, h := range hints {
+			if h.Kind != f.Kind || hintState[hi] == 2 || !subsumes(h.Q, f.Q) {
+				continue
+			}
+			if hintState[hi] == 0 {
+				hintState[hi] = 2
+				ok := true
+				var detail string
+				for i := 0; i < 2 && ok; i++ { // like every reported minimal form: twice, from a cold cache
+					w0.handler.InvalidateCaches()
+					qq := *h.Q
+					qq.Ordered = strings.Contains(h.Kind, "order-differs")
+					v := w0.judgeCounted(&qq, map[string]int64{})
+					minRuns++
+					ok = v.Kind == h.Kind
+					detail = v.Detail
+				}
+				if ok {
+					hintState[hi] = 1
+					sig := signature(h.Kind, h.Q)
+					if _, dup := bySig[sig]; !dup {
+						c := &class{Min: h.Q, Kind: h.Kind, Sig: sig, First: f, Detail: detail}
+						classes = append(classes, c)
+						bySig[sig] = c
+						hinted++
+					}
+				}
+			}
+			if hintState[hi] == 1 {
+				if c := find(f.Q, f.Kind); c != nil {
+					c.Count++
+					return true
+				}
+			}
+		}
+		return false
+	}
 	pending := fails
 	for len(pending) > 0 {
 		rounds++
@@ -778,6 +876,9 @@ func main() {
 		for _, f := range pending {
 			if c := find(f.Q, f.Kind); c != nil {
 				c.Count++
+				continue
+			}
+			if tryHints(f) {
 				continue
 			}
 			k := f.Kind + "\x00" + f.Q.Tmpl + "\x00" + f.Q.Hdr
@@ -802,7 +903,6 @@ func main() {
 				}
 				mz := pool[i]
 				t0, r0 := time.Now(), mz.runs
-				mz.pair = strings.HasPrefix(j.f.Kind, crossPrefix)
 				if k := mz.kindOf(j.f.Q, j.f.Q.Ordered, ""); k != j.f.Kind {
 					j.err = fmt.Sprintf("%q (header %q): a worker process reported %q, the replay in the main process %q", showSQL(j.f.Q.SQL()), j.f.Q.Hdr, j.f.Kind, k)
 					return
@@ -840,9 +940,6 @@ func main() {
 			var detail string
 			for i := 0; i < 2; i++ {
 				w0.handler.InvalidateCaches()
-				if strings.HasPrefix(f.Kind, crossPrefix) {
-					w0.askArc(j.min.SQL(), otherHeader(j.min.Hdr))
-				}
 				qq := *j.min
 				qq.Ordered = strings.Contains(f.Kind, "order-differs")
 				v := w0.judgeCounted(&qq, map[string]int64{})
@@ -862,13 +959,93 @@ func main() {
 			mz.w.close()
 		}
 	}
+	// ---- failing ordered pairs: simplest first; a pair whose two statements contain (literals aside) the two
+	// statements of an already minimal pair of the same kind is an instance of that class
+	sort.SliceStable(pairFails, func(i, j int) bool {
+		a, b := pairFails[i].P, pairFails[j].P
+		if len(a.B.Toks) != len(b.B.Toks) {
+			return len(a.B.Toks) < len(b.B.Toks)
+		}
+		sa, sb := a.B.SQL()+"\x00"+a.A.SQL(), b.B.SQL()+"\x00"+b.A.SQL()
+		if len(sa) != len(sb) {
+			return len(sa) < len(sb)
+		}
+		if sa != sb {
+			return sa < sb
+		}
+		return a.A.Hdr+"\x00"+a.B.Hdr < b.A.Hdr+"\x00"+b.B.Hdr
+	})
+	type pairClass struct {
+		A, B   *query
+		Kind   string
+		Sig    string
+		Count  int
+		First  *pairFailure
+		Detail string
+	}
+	var pairClasses []*pairClass
+	pairBySig := map[string]*pairClass{}
+	pm := &pairMin{w: w0, oracle: map[string]*answer{}, memo: map[string]string{}}
+	for _, f := range pairFails {
+		kindHist[f.Kind]++
+		var hit *pairClass
+		for _, c := range pairClasses {
+			if c.Kind == f.Kind && subsumes(canonLit(c.A), canonLit(f.P.A)) && subsumes(canonLit(c.B), canonLit(f.P.B)) {
+				hit = c
+				break
+			}
+		}
+		if hit != nil {
+			hit.Count++
+			continue
+		}
+		if k := pm.kindOf(f.P.A, f.P.B); k != f.Kind {
+			cleanup()
+			ev.Nondeterminism(fmt.Sprintf("%q after %q: a worker process reported %q, the replay in the main process %q", showSQL(f.P.B.SQL()), showSQL(f.P.A.SQL()), f.Kind, k))
+		}
+		a, b := pm.minimizePair(f.P, f.Kind)
+		sig := pairSignature(f.Kind, a, b)
+		if debug {
+			fmt.Fprintf(os.Stderr, "pair minimised %4d runs  %s after %s -> %s\n", pm.runs, showSQL(f.P.B.SQL()), showSQL(f.P.A.SQL()), sig)
+		}
+		if c, ok := pairBySig[sig]; ok {
+			c.Count++
+			continue
+		}
+		var detail string
+		for i := 0; i < 2; i++ { // the minimal pair must reproduce identically, twice
+			k, d, _ := w0.judgePair(a, b, w0.askOracle(b.SQL(), b.Hdr))
+			if k != f.Kind {
+				cleanup()
+				ev.Nondeterminism("minimal pair for " + sig + " did not reproduce: " + k)
+			}
+			detail = d
+		}
+		c := &pairClass{A: a, B: b, Kind: f.Kind, Sig: sig, Count: 1, First: f, Detail: detail}
+		pairClasses = append(pairClasses, c)
+		pairBySig[sig] = c
+	}
+	minRuns += pm.runs
+	for _, c := range pairClasses {
+		desc := fmt.Sprintf("requested on the same handler right after %s [header %q] (caches emptied before): %s; the same statement from empty caches is answered correctly; first enumerated instance: %s [header %q] after %s [header %q], family %s, deviations %s -> %s",
+			showSQL(c.A.SQL()), c.A.Hdr, c.Detail, showSQL(c.First.P.B.SQL()), c.First.P.B.Hdr, showSQL(c.First.P.A.SQL()), c.First.P.A.Hdr, c.First.P.Base, c.First.P.LabA, c.First.P.LabB)
+		rep := map[string]any{"sql": c.B.SQL(), "header": c.B.Hdr, "after_sql": c.A.SQL(), "after_header": c.A.Hdr, "kind": c.Kind}
+		for i := 0; i < c.Count; i++ {
+			run.Violate(c.Sig, desc, rep)
+		}
+	}
+	if p := os.Getenv("VERIF_C16_WRITE_HINTS"); p != "" { // maintenance aid: record this run's minimal forms
+		var hs []*failure
+		for _, c := range classes {
+			hs = append(hs, &failure{Q: c.Min, Kind: c.Kind})
+		}
+		b, _ := json.MarshalIndent(hs, "", " ")
+		os.WriteFile(p, b, 0o644)
+	}
 	tClass := time.Since(tStart) - tEnum
 	for _, c := range classes {
 		desc := fmt.Sprintf("%s; first enumerated instance: %s [header %q, family %s, template %s]", c.Detail, showSQL(c.First.Q.SQL()), c.First.Q.Hdr, c.First.Q.Fam, c.First.Q.Tmpl)
-		if strings.HasPrefix(c.Kind, crossPrefix) {
-			desc = "after the same text was requested with header " + strconv.Quote(otherHeader(c.Min.Hdr)) + " on the same handler: " + desc
-		}
-		rep := map[string]any{"sql": c.Min.SQL(), "header": c.Min.Hdr, "kind": c.Kind, "other_header_first": strings.HasPrefix(c.Kind, crossPrefix), "first_instance_sql": c.First.Q.SQL(), "first_instance_header": c.First.Q.Hdr}
+		rep := map[string]any{"sql": c.Min.SQL(), "header": c.Min.Hdr, "kind": c.Kind, "first_instance_sql": c.First.Q.SQL(), "first_instance_header": c.First.Q.Hdr}
 		for i := 0; i < c.Count; i++ {
 			run.Violate(c.Sig, desc, rep)
 		}
@@ -876,19 +1053,36 @@ func main() {
 
 	styles := gapStylesThorough
 	if run.Quick() {
-		styles = gapStylesQuick
+		styles = append(append([]string{}, quickUniform...), "\f", "/*/*n*/*/")
 	}
 	var styleNames []string
 	for _, s := range styles {
 		styleNames = append(styleNames, showSQL(s))
 	}
 	famCov := map[string]any{}
-	for _, f := range families {
+	fams := families
+	if run.Quick() {
+		fams = quickFamilies
+	}
+	for _, f := range fams {
 		famCov[f.Name] = map[string]any{"cases": famTotal[f.Name], "judged": counters["fam:"+f.Name], "product": f.Desc}
 	}
-	run.Coverage["evaluations"] = counters["evaluations"]
-	run.Coverage["executions"] = 3 * counters["evaluations"]
+	pairDev := map[string]int64{}
+	for n, v := range counters {
+		if strings.HasPrefix(n, "pairdev:") {
+			pairDev[strings.TrimPrefix(n, "pairdev:")] = v
+		}
+	}
+	run.Coverage["evaluations"] = counters["evaluations"] + counters["pairs"]
+	run.Coverage["single_statement_cases"] = counters["evaluations"]
+	run.Coverage["executions"] = 3*counters["evaluations"] + 2*counters["pairs"]
 	run.Coverage["cases_in_space"] = total
+	run.Coverage["sequences"] = map[string]any{
+		"ordered_pairs_in_space": totalPairs, "ordered_pairs_judged": counters["pairs"], "families_base_and_header": pairFamilies,
+		"pairs_whose_two_duckdb_answers_differ": counters["pairs_answers_differ"], "pairs_where_B_was_served_from_the_cache_after_A_only": counters["pairs_b_served_from_cache"],
+		"pairs_failing_like_B_alone": counters["pairs_single_statement_defect"], "pairs_failing": counters["pairs_failing"], "judged_by_deviation_of_B": pairDev,
+		"rule": "per base statement and header value: the base and every single deviation (literal case / trailing blank / trailing character / content, number vs string literal, keyword case, identifier case, quoted vs unquoted identifier, quoted and bare alias case, header database, comment added or changed, extra whitespace, trailing semicolon, other measurement); EVERY ordered pair (A, B) of a family: InvalidateCaches, request A, request B on the same handler, B's answer against plain DuckDB's answer to B",
+	}
 	run.Coverage["distinct_nontrivial"] = len(hashes)
 	run.Coverage["nontrivial_cases"] = counters["nontrivial"]
 	run.Coverage["rule"] = "cases = union of four full products over " + fmt.Sprint(len(templates)) + " templates (single table, set operations, joins, LATERAL, CTEs incl. CTEs shadowing a measurement, subqueries in FROM/WHERE/SELECT, EXTRACT/SUBSTRING/TRIM bodies), " + fmt.Sprint(len(joinKinds)) + " join kinds/spellings, 10 table-reference spellings per table, gap styles between every pair of tokens, string literals, aliases, identifier and keyword case, each without and with x-arc-database: prod (see families); duplicates are dropped; every case = 1 plain-DuckDB execution + 2 executions through the real handler (transform cache cold, then warm). A case is non-trivial when DuckDB accepts the query and returns at least one row (so equality of the answers constrains Arc); distinct = distinct DuckDB answers (columns + row multiset) among non-trivial cases"
@@ -905,15 +1099,17 @@ func main() {
 	run.Coverage["violated_oracles_before_minimisation"] = kindHist
 	run.Coverage["minimisation_runs"] = minRuns
 	run.Coverage["minimisation_rounds"] = rounds
+	run.Coverage["classes_from_verified_hints"] = hinted
 	run.Coverage["dataset_rows"] = nrows
 	run.Coverage["samples"] = samples
-	run.Coverage["exhaustive"] = complete && int(counters["evaluations"]) == total && os.Getenv("VERIF_C16_FILTER") == ""
+	run.Coverage["exhaustive"] = complete && int(counters["evaluations"]) == total && int(counters["pairs"]) == totalPairs && os.Getenv("VERIF_C16_FILTER") == ""
 	run.Coverage["worker_processes"] = nProcs
 	run.Coverage["enumeration_s"] = tEnum.Seconds()
 	run.Coverage["classification_s"] = tClass.Seconds()
 	run.Assume("the oracle is a plain DuckDB (database/sql + duckdb driver, same library version as Arc's) with one view per measurement over exactly the stored Parquet files (read_parquet([...], union_by_name=true)); without the header unqualified names are the measurements of database \"default\" (Arc's rule) and both databases are schemas; with x-arc-database: prod unqualified names are prod's measurements")
 	run.Assume("compared: columns, data (cell values by value: numbers numerically, timestamps as instants, NULL), row_count, and success/failure; never execution_time_ms, timestamp or error text (response encoding is C19's business). Arc runs with threads=1 and preserve_insertion_order=true so that POSITIONAL JOIN is deterministic on both sides")
 	run.Assume("outside the grammar: time_bucket/date_trunc/regex/LIKE rewrites (C17), time-literal predicates and partition pruning (C18), db-qualified references together with the header (rejected by design), a measurement referenced in a different letter case than it is stored under (Arc's measurement names are case-sensitive directory names), more than two tables, aggregates over non-integer doubles, S3/Azure backends, tiering, RBAC")
+	fmt.Printf("C16 ordered_pairs=%d judged=%d answers_differ=%d served_from_cache=%d failing=%d pair_classes=%d\n", totalPairs, counters["pairs"], counters["pairs_answers_differ"], counters["pairs_b_served_from_cache"], len(pairFails), len(pairClasses))
 	fmt.Printf("C16 cases=%d judged=%d nontrivial=%d distinct_answers=%d both_fail=%d cache(cold+warm=%d not-consulted=%d) failing=%d classes=%d minimisation_runs=%d enumeration=%.1fs classification=%.1fs\n",
 		total, counters["evaluations"], counters["nontrivial"], len(hashes), counters["both_fail"], counters["cache_cold_then_warm"], counters["cache_not_consulted"], len(fails), len(classes), minRuns, tEnum.Seconds(), tClass.Seconds())
 	if len(hashes) < 2 {
@@ -930,15 +1126,24 @@ func replay(run *ev.Run, w *worker) {
 	must(err, "replay file")
 	var f struct {
 		Replay struct {
-			SQL        string `json:"sql"`
-			Header     string `json:"header"`
-			OtherFirst bool   `json:"other_header_first"`
+			SQL         string `json:"sql"`
+			Header      string `json:"header"`
+			AfterSQL    string `json:"after_sql"`
+			AfterHeader string `json:"after_header"`
 		} `json:"replay"`
 	}
 	must(json.Unmarshal(b, &f), "replay json")
 	q := &query{Toks: []string{f.Replay.SQL}, Glue: []bool{true}, Gaps: []string{""}, Hdr: f.Replay.Header}
-	if f.Replay.OtherFirst {
-		w.askArc(f.Replay.SQL, otherHeader(f.Replay.Header))
+	if f.Replay.AfterSQL != "" {
+		a := &query{Toks: []string{f.Replay.AfterSQL}, Glue: []bool{true}, Gaps: []string{""}, Hdr: f.Replay.AfterHeader}
+		k, d, served := w.judgePair(a, q, w.askOracle(q.SQL(), q.Hdr))
+		fmt.Printf("C16 replay header=%q sql=%s\n  after header=%q sql=%s\n  verdict=%q served_from_cache=%v %s\n", q.Hdr, showSQL(q.SQL()), a.Hdr, showSQL(a.SQL()), k, served, d)
+		if k != "" {
+			run.Violate(pairSignature(k, a, q), d, f.Replay)
+		}
+		w.close()
+		cleanup()
+		run.Finish()
 	}
 	v := w.judgeCounted(q, map[string]int64{})
 	fmt.Printf("C16 replay header=%q sql=%s\n  verdict=%q %s\n", q.Hdr, showSQL(q.SQL()), v.Kind, v.Detail)
